@@ -1,11 +1,11 @@
 package main
 
 import (
-	"sort"
 	"go/ast"
 	"go/constant"
 	"go/token"
 	"go/types"
+	"sort"
 	"strings"
 )
 
